@@ -159,7 +159,7 @@ Proof.
     + unfold get_arg, get_ctx. cbn [fst snd m_ctxs MS nth_error set_core with_args rc_args].
       eapply nth_error_upd_nth_same; eauto.
     + reflexivity.
-    + cbn [r_spec]. rewrite Kb. reflexivity.
+    + rewrite needs_value_bool; [reflexivity | exact Kb].
 Qed.
 
 (** the machine before the first task name, with an arbitrary (inert) flag *)
@@ -192,7 +192,7 @@ Proof.
     + unfold get_arg, get_ctx. cbn [fst snd m_ctxs MI nth_error set_core with_args rc_args].
       eapply nth_error_upd_nth_same; eauto.
     + reflexivity.
-    + cbn [r_spec]. rewrite Kb. reflexivity.
+    + rewrite needs_value_bool; [reflexivity | exact Kb].
 Qed.
 
 Lemma step_first_task_inert p i0 fl got tok c' :
